@@ -5,8 +5,9 @@ from pysym.harness import run_cases
 
 LEVEL = 'exploration'
 DEDUCTIVE = [('contracts.stereo', ('involution', 'translate_tetrahedron_sign/tetrahedron', 'CANARY'))]   # sign translation kernel (shared with C12)
-FINISH = dict(rule='see checks/b02.py RULE / run.bound entries', explanation='bounded stand-in (engine B) of the contracts of DESIGN §2 C02; '
-              'labelled bounded, never counted as proved', trusted_base=['CPython 3.12', 'oracles/*', 'RDKit where stated'])
+FINISH = dict(rule='deductive: one obligation per path / table key; B: see run.bound entries of checks/b02.py',
+              explanation='T: writer/reader tables mutually inverse, closure numbers 1..99, element symbols; P: sign translation kernel (shared with C12); B: write->read atom by atom under the written order for all 32 option subsets, injectivity',
+              trusted_base=['CPython', 'z3', 'pysym', 'oracles/o01_stereo.py', 'RDKit (secondary)'])
 replay = make_replay('C02')
 
 
